@@ -22,7 +22,7 @@ Inductive outcome := Val (v : option json) | OutOfFuel.
 (* ---------- extractors ---------- *)
 Definition single_extract (s : sel) (v : json) : option json :=
   match v, s with
-  | JArr l, SIdx i => nth_error l (N.to_nat i)
+  | JArr l, SIdx i => nth_N l i
   | JObj m, SKey k => obj_get k m
   | _, _ => None
   end.
@@ -81,7 +81,7 @@ Definition core_sem (f : fn) (vals : list (option json)) : option json :=
   | F_get =>
       match arg vals 0%nat with
       | Some (JObj m) => match arg vals 1%nat with Some (JStr k) => obj_get k m | _ => None end
-      | Some (JArr l) => match usize_of (arg vals 1%nat) with Some i => nth_error l (N.to_nat i) | None => None end
+      | Some (JArr l) => match usize_of (arg vals 1%nat) with Some i => nth_N l i | None => None end
       | _ => None
       end
   | F_size =>
